@@ -319,7 +319,8 @@ def vp_integer_times(c):
     cost = c.pw("cost")
     c.require(cost.f >= 0)
     st = _setup(c, "i", t0f, t1f, n.z, m.z, cost, times_dtype="int")
-    c.ensure("table_created_with_the_floating_point_type_of_the_cost", tz.tag_of(st.get("grid_dtype")) == "float" if st.get("grid_dtype") is not None else False)
+    # no dtype given = torch's default floating type: fine as well (only an INTEGER table truncates the costs)
+    c.ensure("table_created_with_the_floating_point_type_of_the_cost", "grid0" in st and (st.get("grid_dtype") is None or tz.tag_of(st.get("grid_dtype")) == "float"))
     c.canary("canary_table_typed_like_the_spike_times", st.get("grid_dtype") is not None and tz.tag_of(st.get("grid_dtype")) == "int")
 
 
@@ -358,4 +359,6 @@ MUTANTS = [
     dict(file=M, func=FN, old="grid[:, 0] = torch.arange(0, t0.numel() + 1, **tckwargs).t()", new="grid[:, 0] = 0", contracts=["victor_purpura_pair_dist[loop contract: bounds, identity]"], name="base column not initialised"),
     dict(file=M, func=FN, old="return torch.tensor([float(abs(t0.numel() - t1.numel()))], device=t0.device)", new="return torch.tensor([float(t0.numel() - t1.numel())], device=t0.device)", contracts=["victor_purpura_pair_dist[scalar cost limits]"], name="cost 0: signed count difference"),
     dict(file=M, func=FN, old="return grid[:, -1, -1]", new="return grid[:, -1, -2]", contracts=["victor_purpura_pair_dist[loop contract: bounds, identity]"], name="returns the wrong cell"),
+    dict(file=M, func=FN, old='tckwargs = {"dtype": cost.dtype, "device": cost.device}', new='tckwargs = {"dtype": t0.dtype, "device": t0.device}', contracts=["victor_purpura_pair_dist[integer spike times]"], name="seed C20h: the table is typed like the spike times"),
+    dict(file=M, func=FN, old='tckwargs = {"dtype": cost.dtype, "device": cost.device}', new='tckwargs = {"device": cost.device}', contracts=["victor_purpura_pair_dist[integer spike times]"], expect="survives", name="control: table created with the default floating type"),
 ]
